@@ -78,6 +78,10 @@ func Leaves() []Leaf {
 		{Name: "Oops", Needs: []*Decl{localException()}, Base: "exception"},
 		{Name: "Num", Needs: []*Decl{td("Num", T("i32"))}, Base: "i32", Hashable: true},
 		{Name: "Num2", Needs: []*Decl{td("Num", T("i32")), td("Num2", T("Num"))}, Base: "i32", Hashable: true},
+		// typedefs of the base types whose Go representation is not a plain integer
+		{Name: "Blob", Needs: []*Decl{td("Blob", T("binary"))}, Base: "binary"},
+		{Name: "Text", Needs: []*Decl{td("Text", T("string"))}, Base: "string", Hashable: true},
+		{Name: "Ratio", Needs: []*Decl{td("Ratio", T("double"))}, Base: "double", Hashable: true},
 		{Name: "Strs", Needs: []*Decl{td("Strs", List(T("string")))}, Base: "list"},
 		{Name: "Pt", Needs: []*Decl{localStruct(), td("Pt", T("Point"))}, Base: "struct"},
 		{Name: "Hue", Needs: []*Decl{localEnum(), td("Hue", T("Color"))}, Base: "enum", Hashable: true},
